@@ -12,16 +12,23 @@ Theorem C08_one_copy_per_subscription : forall self subs pq pr,
 Proof. exact each_is_spec. Qed.
 Print Assumptions C08_one_copy_per_subscription.
 
-(* overlap option on: exactly one copy at the highest granted QoS with all identifiers (uniform options) *)
-Theorem C08_one_copy_when_overlapping : forall self subs pq pr, uniform subs ->
+(* overlap option on: exactly one copy at the highest granted QoS with all identifiers - of the matching subscriptions
+   that are not (No-Local and own publish): a No-Local subscription takes no part in the copy of its own session's
+   publish, wherever among the session's subscriptions the walk meets it *)
+Theorem C08_one_copy_when_overlapping : forall self subs pq pr,
   deliveries true self subs pq pr =
-  match subs with
+  match filter (eligible self) subs with
   | [] => []
-  | sp :: _ => if sp_nl sp && self then []
-               else [mkD (N.min pq (max_qos subs)) (sp_rap sp && pr) false (all_ids subs)]
+  | (sp :: _) as el => [mkD (N.min pq (max_qos el)) (sp_rap sp && pr) false (all_ids el)]
   end.
 Proof. exact merge_is_spec. Qed.
 Print Assumptions C08_one_copy_when_overlapping.
+
+(* ... its RETAIN flag follows Retain-As-Published, whatever the order of the walk when the subscriptions agree on it *)
+Theorem C08_overlapping_copy_retain : forall self subs pq pr sp d, uniform_rap subs -> In sp subs ->
+  In d (deliveries true self subs pq pr) -> d_retain d = (sp_rap sp && pr).
+Proof. exact merge_rap_any. Qed.
+Print Assumptions C08_overlapping_copy_retain.
 
 Theorem C08_qos_capped_dup_clear : forall overlap self subs pq pr d,
   In d (deliveries overlap self subs pq pr) -> d_qos d <= pq /\ d_dup d = false.
